@@ -4,3 +4,4 @@ pub mod drivers;
 pub mod points;
 pub mod ops;
 pub mod proj;
+pub mod replay;
